@@ -11,7 +11,8 @@ Inductive c12case :=
 | KSched (g : cfg) (first : Z) (pre : list rop) (ths : list tkind) (sched : list nat)
          (obs : list rres) (log : list change) (final : list (string * client))
 | KDefault (name : string) (r : request) (obs : request)
-| KDefaultStream (name : string) (recv_ok : bool) (r : request) (obs : request).
+| KDefaultStream (name : string) (recv_ok : bool) (r : request) (obs : request)
+| KDefaultSeq (name : string) (steps : list dstep) (obs : list mvalue).
 
 (* ---------- model side ---------- *)
 Definition pcs_results (l : list pc) : option (list rres) :=
@@ -33,6 +34,7 @@ Definition agrees (c : c12case) : bool :=
       end
   | KDefault name r obs => request_eqb obs (unary_interceptor name r)
   | KDefaultStream name ok r obs => request_eqb obs (stream_recv name ok r)
+  | KDefaultSeq name steps obs => list_eqb mvalue_eqb obs (run_seq name steps)
   end.
 
 (* ---------- property side ---------- *)
@@ -155,6 +157,30 @@ Definition default_ok (name : string) (applied : bool) (r obs : request) : bool 
   | _ => request_eqb obs r
   end.
 
+(* one request of a sequence, judged on its own (whatever passed through the interceptor before):
+   same fields in the same order; the field whose text name is "name" -- if it is a singular
+   string, was empty, and the message was actually received -- holds the default; every other
+   field, and a non-empty name, is untouched *)
+Fixpoint fields_ok (t : mtype) (applied : bool) (dflt : string) (v o : mvalue) : bool :=
+  match v, o with
+  | [], [] => true
+  | (n, x) :: v', (n', x') :: o' =>
+      (n =? n')
+      && (let is_name := existsb (fun f => String.eqb (ftext f) "name" && (fnum f =? n)
+                                           && match fk f with FString => true | _ => false end)
+                                 (tfields t) in
+          if applied && is_name && String.eqb x "" then String.eqb x' dflt else String.eqb x' x)
+      && fields_ok t applied dflt v' o'
+  | _, _ => false
+  end.
+
+Fixpoint seq_ok (dflt : string) (steps : list dstep) (obs : list mvalue) : bool :=
+  match steps, obs with
+  | [], [] => true
+  | (path, t, v) :: steps', o :: obs' => fields_ok t (negb (path =? 2)) dflt v o && seq_ok dflt steps' obs'
+  | _, _ => false
+  end.
+
 Definition C12_ok (c : c12case) : bool :=
   match c with
   | KHist g first ops obs log =>
@@ -165,6 +191,7 @@ Definition C12_ok (c : c12case) : bool :=
   | KSched g first pre ths sched obs log final => sched_ok g pre ths obs log final
   | KDefault name r obs => default_ok name true r obs
   | KDefaultStream name ok r obs => default_ok name ok r obs
+  | KDefaultSeq name steps obs => seq_ok name steps obs
   end.
 
 Definition C12_guard (c : c12case) : bool := true.
